@@ -17,7 +17,7 @@ RULE = ('cells = (wavelet, J in 1..3, HxW multiples of 2^J incl. non-square and 
 ASSUMPTIONS = ['pywt.swt2 (periodic boundary) is the specification', 'float64', 'sides <= 48, J <= 3']
 TIMEOUT = {'quick': 900, 'thorough': 3000}
 WORKER_BUDGET = {'quick': 600, 'thorough': 2400}
-MIN_HELD = {'quick': 200, 'thorough': 1000}
+MIN_HELD = {'quick': 200, 'thorough': 54259}
 
 
 def cells(tier, seed):
